@@ -585,6 +585,49 @@ def leg_exhaustive(ctx):
 
 # ------------------------------------------------------------------------------------------------
 
+def leg_cast(ctx, rng, n):
+    """values of another dtype than the array's: equality with the fill value is decided AFTER the cast (as NumPy's assignment casts)"""
+    import sparse
+
+    for _ in range(n):
+        shape = rand_shape(rng)
+        if 0 in shape or not shape:
+            continue
+        fill = int(rng.choice([0, 0, 3]))
+        dt = rng.choice([np.int64, np.uint8, np.float32])
+        d = sparse.DOK(shape, dtype=dt, fill_value=fill)
+        a = np.full(shape, fill, dtype=dt)
+        steps = []
+        msg = None
+        for _ in range(int(rng.integers(1, 6))):
+            key = tuple(int(rng.integers(0, e)) for e in shape) if rng.random() < 0.6 else (slice(None),) + tuple(int(rng.integers(0, e)) for e in shape[1:])
+            v = rng.choice([0.5, 0.25, fill + 0.4, fill + 0.9, 1e-60, 2.0, 7.0, float(fill)])
+            val = np.array([v]) if (isinstance(key[0], slice) and rng.random() < 0.4) else float(v)
+            steps.append({"key": [k if isinstance(k, int) else "slice" for k in key], "value": float(v)})
+            with warnings.catch_warnings():
+                warnings.simplefilter("ignore")
+                try:
+                    a[key] = val
+                    d[key] = val
+                except Exception as e:  # noqa: BLE001
+                    msg = f"assignment raised {type(e).__name__}: {e}"
+                    break
+            dd = d.todense()
+            nonfill = int((a != np.asarray(fill, dtype=dt)).sum())
+            if not np.array_equal(dd, a):
+                msg = f"values differ: todense {dd.tolist()} numpy {a.tolist()}"
+            elif d.nnz != nonfill:
+                msg = f"nnz {d.nnz} but {nonfill} elements differ from the fill value (a stored value equals the fill value after the cast)"
+            elif d.to_coo().nnz != nonfill:
+                msg = f"to_coo().nnz {d.to_coo().nnz} but {nonfill} non-fill elements"
+            if msg:
+                break
+        case = {"shape": list(shape), "dtype": np.dtype(dt).name, "fill": fill, "steps": steps}
+        ctx.case("C:cast-assign", case)
+        if msg:
+            ctx.fail("C", "assign:cast", case, msg, finding=findings.classify(PID, "assign:cast", case, msg))
+
+
 def run(ctx):
     ctx.trusted = TRUSTED
     ctx.assumptions = [
@@ -598,6 +641,7 @@ def run(ctx):
     leg_corpus(ctx)
     leg_raw_setitem(ctx, rng, ctx.quick)
     leg_histories(ctx, rng, 1500 if ctx.quick else 6000, 30)
+    leg_cast(ctx, gen.rng_for(ctx.seed, PID + 'cast'), 300 if ctx.quick else 3000)
     if not ctx.quick:
         leg_exhaustive(ctx)
     ctx.cov["rule"] = (
